@@ -21,8 +21,9 @@ class Gen:
     """Builds one episode; keeps enough shadow state to produce mostly-valid ops."""
 
     def __init__(self, rng, strategy=None, passive=None, rl=False, cb=False, weights=None, nback=None,
-                 maxw=6, thr=None, eject_s=None):
+                 maxw=6, thr=None, eject_s=None, scramble=False):
         self.rng = rng
+        self.scramble = scramble      # names whose append order is not their lexicographic order
         r = rng
         self.strategy = strategy or r.choice(STRATS)
         self.passive = r.random() < 0.5 if passive is None else passive
@@ -54,7 +55,7 @@ class Gen:
 
     def add(self, w=None, name=None, bad=False):
         if name is None:
-            name = "b%d" % self.nextname
+            name = ("%s%d" % ("nzdqkbwh"[self.nextname % 8], self.nextname)) if self.scramble else "b%d" % self.nextname
             self.nextname += 1
         if w is None:
             w = self.rng.choice([0, 1, 2, 3, -1])
@@ -119,13 +120,14 @@ class Gen:
             return
         name = name or r.choice(self.names)
         ok = (r.random() < 0.5) if ok is None else ok
-        self.ops.append("lb probe %s %d %s" % (name, self.t, "ok" if ok else "fail"))
+        # a failing probe fails by status or in transport (no answer at all)
+        self.ops.append("lb probe %s %d %s" % (name, self.t, "ok" if ok else r.choice(["fail", "err"])))
 
     def probe_begin(self, name):
         self.ops.append("lb probe-begin %s %d" % (name, self.t))
 
     def probe_end(self, name, ok):
-        self.ops.append("lb probe-end %s %d %s" % (name, self.t, "ok" if ok else "fail"))
+        self.ops.append("lb probe-end %s %d %s" % (name, self.t, "ok" if ok else self.rng.choice(["fail", "err"])))
 
     def remove(self, name=None):
         r = self.rng
